@@ -5,6 +5,7 @@ exit 1  a tagged obligation was refuted and is not a listed finding   -> VIOLATI
 exit 2  infrastructure (lost anchor, unsupported construct, rlimit, unstable proof, tool crash)
 """
 import argparse
+import threading
 import concurrent.futures as cf
 import json
 import os
@@ -29,8 +30,18 @@ def build_unit(unit, repo, variant=None):
     g = gen.generate(unit, text, repo, os.path.join(VERIF, 'units'))
     os.makedirs(BUILD, exist_ok=True)
     out = os.path.join(BUILD, unit + ".rs")
-    with open(out, "w", encoding="utf-8") as f:
-        f.write(g.text())
+    txt = g.text()
+    # concurrent runs of one unit (other seeds) share this file: never truncate it under a running verifier
+    same = False
+    try:
+        same = open(out, encoding="utf-8").read() == txt
+    except OSError:
+        pass
+    if not same:
+        tmp = out + ".%d.%d.tmp" % (os.getpid(), threading.get_ident())
+        with open(tmp, "w", encoding="utf-8") as f:
+            f.write(txt)
+        os.replace(tmp, out)
     return g, out
 
 
